@@ -35,6 +35,7 @@ var checks = map[string]entry{
 	"C15": {"fault_enumeration", props.C15},
 	"C16": {"model_checking", props.C16},
 	"C17": {"model_checking", props.C17},
+	"C18": {"fault_enumeration", props.C18},
 	"C19": {"model_checking", props.C19},
 	"C20": {"model_checking", props.C20},
 }
